@@ -456,7 +456,7 @@ SUBCHECKS = [
 
 
 def _atheris_cases(tier):
-  runs = {'quick': 15000, 'thorough': 400000}[tier]
+  runs = {'quick': 6000, 'thorough': 400000}[tier]
   out = []
   for target in ('flatten', 'pytree'):
     r = runs if target == 'flatten' else runs // 30
